@@ -123,7 +123,7 @@ int main(int argc, char** argv) {
     // Transfer (sequential, before the threads start): the queue is filled with `prefill` values (>= 900000) and then
     // handed over - 1: fresh.swap(filled)  2: move-constructed from filled  3: move-assigned into a queue of another
     // capacity that holds one element of its own  4: empty.swap(filled) called on the empty one - and the program
-    // runs on the destination; afterwards the other queue is drained too (it must hold exactly what the destination held, else conserve = 0).
+    // runs on the destination (5: recycle, see below); afterwards the other queue is drained too (it must hold exactly what the destination held, else conserve = 0).
     const int ff = (spurious >> 1) & 3, tm = (spurious >> 3) & 7;
     const size_t prefill = (size_t)(spurious >> 6);
     spurious &= 1;
@@ -152,6 +152,14 @@ int main(int argc, char** argv) {
       case 2: ff_apply(*qa); fill(*qa, prefill); qb = new Q(std::move(*qa)); qrun = qb; break;
       case 3: ff_apply(*qa); fill(*qa, prefill); qb = new Q(2 * cap); fill(*qb, 1, true); *qb = std::move(*qa); qrun = qb; break;
       case 4: qb = new Q(cap); ff_apply(*qb); fill(*qb, prefill); qa->swap(*qb); qrun = qa; break;
+      // 5: recycle - the queue is used (prefill pushes and pops through its first slots, no bookkeeping) and then
+      //    reserve_and_clear(same capacity) is called on it: it must stay usable (indexes and slot versions in step)
+      case 5: ff_apply(*qa);
+              for (size_t i = 0; i < prefill; ++i) {
+                qa->try_push<true, false>([&](uint64_t& s) { s = 700000 + i; });
+                qa->try_pop<true, false>([&](uint64_t&) {});
+              }
+              qa->reserve_and_clear(cap); break;
       default: ff_apply(*qa); break;
     }
     Q* qother = qrun == qa ? qb : qa;
